@@ -196,15 +196,21 @@ async fn publife_case(addr: std::net::SocketAddr, certs: &Path, log: &EvLog, run
                         let n = sent[&id] + 1;
                         let mut body = format!("P{id}:{n}:{:06x}:", run & 0xffffff);
                         body.extend((0..1_000_000).map(|i| (b'a' + ((i * 7 + n as usize) % 26) as u8) as char));
-                        match tokio::time::timeout(Duration::from_millis(500), p.feed(body)).await {
-                            Ok(Ok(())) => {
+                        // polled once, back to back: the second or third feed finds the writer in the middle of the
+                        // previous frame (the window has no room for the rest yet) and is not handed over
+                        let fut = p.feed(body);
+                        tokio::pin!(fut);
+                        match futures::poll!(fut.as_mut()) {
+                            std::task::Poll::Ready(Ok(())) => {
                                 sent.insert(id, n);
                                 fed += 1;
                             }
                             _ => break,
                         }
                     }
-                    let _ = tokio::time::timeout(Duration::from_millis(30), p.flush()).await;
+                    let fl = p.flush();
+                    tokio::pin!(fl);
+                    let _ = futures::poll!(fl.as_mut());
                 }
                 if let Some(c) = pub_clients.get(&conn) {
                     c.verif_close_connection().await;
@@ -217,6 +223,15 @@ async fn publife_case(addr: std::net::SocketAddr, certs: &Path, log: &EvLog, run
                 }
                 tokio::time::sleep(Duration::from_millis(40)).await;
                 log.emit("op", json!({"op": op, "id": id, "m": fed}));
+                // every other time the loss is noticed by a flush() (no message at stake): what is published after
+                // that is published on a working stream
+                if run % 2 == 0 {
+                    if let Some(p) = pubs.get_mut(&id).and_then(|x| x.as_mut()) {
+                        let r = tokio::time::timeout(Duration::from_secs(10), p.flush()).await;
+                        down.retain(|x| *x != id);
+                        log.emit("op", json!({"op": "flush", "id": id, "res": match r { Ok(Ok(())) => "ok".to_string(), Ok(Err(e)) => format!("err: {e}"), Err(_) => "hung".to_string() }}));
+                    }
+                }
             }
             "open_sub" => {
                 let c = connect_client(addr, certs, backoff.clone()).await?;
